@@ -7,6 +7,7 @@ import (
 	opautil "github.com/open-policy-agent/opa/util"
 	"go/token"
 	"go/types"
+	"hash/fnv"
 	"io"
 	"reflect"
 	"strconv"
@@ -856,8 +857,28 @@ func registerEnvStubs(e *Engine) {
 		ps.env().logs = append(ps.env().logs, "rego.PrepareForEval")
 		pq := fr.i.zeroOf(regoPkg, "PreparedEvalQuery").(structure)
 		if ps.flagDecide("compile.err") {
-			// compilation problems are reported as ast.Errors by the engine
-			return tuple{pq, iface{t: fr.i.eng.namedType("github.com/open-policy-agent/opa/ast", "Errors"), v: []value{}}}
+			// compilation problems are reported as ast.Errors by the engine: here one error located in the
+			// module and the marker the engine appends when it stops at its error limit, which has no location
+			const astPkg = "github.com/open-policy-agent/opa/ast"
+			mkErr := func(code, msg string, located bool) value {
+				et := fr.i.eng.namedType(astPkg, "Error")
+				e := zero(et).(structure)
+				setField(et, e, "Code", code)
+				setField(et, e, "Message", msg)
+				if located {
+					lt := fr.i.eng.namedType(astPkg, "Location")
+					l := zero(lt).(structure)
+					setField(lt, l, "File", "stub.rego")
+					setField(lt, l, "Row", int(3))
+					setField(lt, l, "Col", int(1))
+					var lc value = l
+					setField(et, e, "Location", &lc)
+				}
+				var cell value = e
+				return &cell
+			}
+			errs := []value{mkErr("rego_unsafe_var_error", "stub: var x is unsafe", true), mkErr("rego_compile_error", "error limit reached", false)}
+			return tuple{pq, iface{t: fr.i.eng.namedType(astPkg, "Errors"), v: errs}}
 		}
 		// remember which Rego object this query came from
 		inner := pq[0].(structure)
@@ -1437,12 +1458,21 @@ func evalModuleIdentity(pq value) value {
 	if !ok {
 		return "stub-profile"
 	}
-	for _, l := range strings.Split(code, "\n") {
-		if strings.HasPrefix(l, `report["profile"] = "`) && strings.HasSuffix(l, `"`) {
-			return "stub:" + strings.TrimSuffix(strings.TrimPrefix(l, `report["profile"] = "`), `"`)
+	// ... and the answer is a function of the module text modulo the numbering of generated
+	// identifiers: a digest of the code with its digits removed stands for that
+	h := fnv.New32a()
+	for k := 0; k < len(code); k++ {
+		if code[k] < '0' || code[k] > '9' {
+			h.Write([]byte{code[k]})
 		}
 	}
-	return "stub-profile"
+	digest := fmt.Sprintf("#%08x", h.Sum32())
+	for _, l := range strings.Split(code, "\n") {
+		if strings.HasPrefix(l, `report["profile"] = "`) && strings.HasSuffix(l, `"`) {
+			return "stub:" + strings.TrimSuffix(strings.TrimPrefix(l, `report["profile"] = "`), `"`) + digest
+		}
+	}
+	return "stub-profile" + digest
 }
 
 // normaliseDecoded turns what non-JSON decoders produce (map[any]any, int, float64 ...) into the
@@ -1471,4 +1501,19 @@ func normaliseDecoded(n any) any {
 		return json.Number(strconv.FormatInt(x, 10))
 	}
 	return n
+}
+
+
+// setField stores v into the named field of a structure of the given named struct type.
+func setField(t types.Type, st structure, name string, v value) {
+	s, ok := t.Underlying().(*types.Struct)
+	if !ok {
+		return
+	}
+	for k := 0; k < s.NumFields(); k++ {
+		if s.Field(k).Name() == name {
+			st[k] = v
+			return
+		}
+	}
 }
